@@ -75,7 +75,7 @@ class Gen:
                     continue  # D9: commands without required arguments reject their own tags (known finding)
                 if self.r.random() < 0.35:
                     chosen.append(a)
-            elif self.allow_irregular and self.r.random() < 0.3:
+            elif self.r.random() < 0.3:
                 chosen.append(a)
         self.r.shuffle(chosen)
         for a in chosen:
@@ -112,8 +112,6 @@ class Gen:
     def test(self, depth, need):
         cands = self.tests if depth > 0 else [d for d in self.tests if not any(t in ("test", "testlist") for a in d["args"] for t in a["types"])]
         d = self.r.choice(cands)
-        if d["nonDet"] and not self.allow_irregular:
-            d = self.T.get("true", d)
         if d["extension"]:
             need.add(d["extension"])
         toks = [self.case(d["name"].encode())]
